@@ -131,11 +131,15 @@ def c04(ctx):
 
 def merge_stability(ctx, db, t):
     """numerical structure of merge (and add) of one moment-family type: dimensions, shift behaviour
-    (no intermediate carries a common offset to a power > 1) and division guards"""
+    (no intermediate carries a common offset to a power > 1), division guards and the value-box grading
+    (the accessors are evaluated too: they fix the dimension and count-degree of every field)"""
     order = {"moments::Mean": 1, "moments::Variance": 2, "moments::Skewness": 3, "moments::Kurtosis": 4, "Moments4": 4}.get(t)
     if order is None:
         order = int(t.split("::M")[-1])
-    return numeric(ctx, db, t, ("dim", "shift", "div"), only=("mean",), box=dict(VALUE_BOX, order=order))
+    if t in ("Moments4",) or "::M" in t:
+        return numeric(ctx, db, t, ("dim", "shift", "div"), accessor_args=moment_args(order), extra_contracts=moment_contracts(order),
+                       skip=("sample_skewness", "sample_excess_kurtosis", "sample_variance"), box=dict(VALUE_BOX, order=order))
+    return numeric(ctx, db, t, ("dim", "shift", "div"), box=dict(VALUE_BOX, order=order))
 
 
 def c02(ctx):
@@ -152,7 +156,7 @@ def c02(ctx):
         which = ("L2", "L3", "L4")
         R.laws_add_merge(ctx, db, e, which)
         R.r_ident_merge(ctx, db, e)
-        if ctx.tier == "thorough" or t not in ("m8::M8", "m10::M10"):
+        if ctx.tier == "thorough" or t != "m8::M8":
             merge_stability(ctx, db, t)
         print(t, "%.1fs" % (time.time() - t0))
     ctx.floor("Merge types of the moment family analysed", n, 10)
@@ -700,6 +704,9 @@ def c17(ctx):
             continue
         n += 1
         scen = N.est_scenarios(ctx, db, e, **kw)
+        # "whenever defined" is decided by the sample size: it must be exact through add and merge
+        if not t.endswith("::WeightedMean"):
+            R.r_count(ctx, db, e, "B")
         # the range clauses presuppose scale-free arithmetic and emptiness tests
         N.r_dim(ctx, db, e, scen)
         N.r_sign(ctx, db, e, scen, weighted=kw.get("weighted", False))
